@@ -1,33 +1,52 @@
 # C04 registry entry: see lib/registry.py for the field meanings
-PROP = {'rule': 'rapid state machine that plays the scheduler framework and the informers around a real GangCache/PodGroupManager: 1-2 gang '
-         'groups of 1-3 gangs (min 1-3, strict/non-strict, only-waiting / waiting-and-running / once-satisfied, declared by annotation, '
-         'light-weight labels or PodGroup object), <=9 pods. Rules: pod create/touch/delete at the API, in-order informer delivery with '
-         'arbitrary lag, re-list (skipped versions), resync and tombstones, PodGroup add/update/delete, Permit (+AllowGangGroup on '
-         'Success), reserve failure, AfterPostFilter, permit timeout, Unreserve of rejected pods, bind ok / bind failure, PostBind, the '
-         "framework's own reaction to a deleted pod. non-trivial = in a group of >=2 gangs a Permit happens after a member's informer "
-         'delete or roll-back (Unreserve/AfterPostFilter) that itself followed an earlier Permit of that group. distinct = FNV-64 of '
-         'the configuration and the full history.',
+PROP = {'rule': 'history / historyLong: rapid state machine that plays the scheduler framework and the informers around a real '
+         'GangCache/PodGroupManager: 1-2 gang groups of 1-3 gangs (min 1-3, strict/non-strict, only-waiting / waiting-and-running / '
+         'once-satisfied, declared by annotation, light-weight labels or PodGroup object), <=9 (long: <=14) pods. Every step runs one '
+         'ENABLED rule: pod create/touch/delete at the API, in-order informer delivery with arbitrary lag, re-list (skipped versions), '
+         'resync and tombstones, PodGroup add/update/delete, Permit (+AllowGangGroup on Success), reserve failure, AfterPostFilter, '
+         "permit timeout, Unreserve of rejected pods, bind ok / bind failure, PostBind, the framework's own reaction to a deleted pod. "
+         "non-trivial = in a group of >=2 gangs a Permit happens after a member's informer delete or roll-back "
+         '(Unreserve/AfterPostFilter) that itself followed an earlier Permit of that group. pluginRelease: same idea through '
+         'Coscheduling.Permit/Unreserve/AfterPostFilter/PostBind with captured informer handlers (one group of 1-3 gangs, <=8 pods, '
+         'no lag except bind update vs PostBind and plain updates); same non-trivial rule. concurrent (-race): a pre-drawn informer '
+         'script (updates, resyncs, deletes) races a pre-drawn scheduling script (Permit/Unreserve/PostBind); non-trivial = both '
+         'goroutines executed >=3 operations. distinct = FNV-64 of the configuration and the full history.',
  'assumptions': ['Permit / Reserve failure / AfterPostFilter are only issued for pods whose informer add has reached the gang cache '
                  '(the scheduler queue is fed by the same informer) and that are unbound and not in another cycle',
                  'all gangs of a group list the same group; all pods of an annotation gang carry the same gang annotations; pod names are '
-                 'never reused; min-available >= 1',
+                 'never reused; min-available >= 1; a pod never changes its gang',
                  'PodGroup events are delivered synchronously (no lag between the PodGroup API object and the cache)',
                  'for the match policies only-waiting and waiting-and-running the count rule is asserted at every Permit, also after the '
-                 "group's first bind; only gangs with policy once-satisfied are exempt once a member of the group has been bound",
+                 "group's first bind (distinct signature ...:after-first-bind); only gangs with policy once-satisfied are exempt once a "
+                 'member of the group has been bound (the model keeps that flag for ever, the cache may forget it: weaker, never '
+                 'stronger)',
                  'a deleted pod that the cache still counts (Permit/PostBind that raced with its informer delete) is counted by the model '
                  'too (tolerated, reported as a class), so the oracle is not stronger than what a race-free cache could know',
-                 'terminated (Succeeded/Failed) pods never reach the handlers: the scheduler pod informer filters them'],
+                 'terminated (Succeeded/Failed) pods never reach the handlers: the scheduler pod informer filters them',
+                 'concurrent unit: PodGroup updates are not part of the racing informer script (opt-in VERIF_C04_PGRACE=1 shows the '
+                 'unsynchronised read of gang.WaitTime in Permit; it cannot change a release decision)'],
  'units': [{'name': 'core',
             'pkg': 'pkg/scheduler/plugins/coscheduling/core',
             'files': ['C04/c04_gang_test.go'],
-            'tests': [{'run': 'TestVerifC04History', 'quick': 1500, 'thorough': 6000, 'steps': 40, 'quick_shards': 2}]}],
+            'tests': [{'run': 'TestVerifC04History', 'quick': 8000, 'thorough': 50000, 'steps': 40, 'quick_shards': 2,
+                       'shrinktime': '15s'},
+                      {'run': 'TestVerifC04HistoryLong', 'thorough': 10000, 'steps': 120, 'thorough_only': True, 'shrinktime': '20s'},
+                      {'run': 'TestVerifC04Concurrent', 'thorough': 3000, 'race': True, 'thorough_only': True, 'shards': 4,
+                       'shrinktime': '20s'}]},
+           {'name': 'plugin',
+            'pkg': 'pkg/scheduler/plugins/coscheduling',
+            'files': ['C04/c04_plugin_test.go'],
+            'tests': [{'run': 'TestVerifC04PluginRelease', 'quick': 3000, 'thorough': 20000, 'steps': 40, 'shards': 6,
+                       'shrinktime': '15s'}]}],
  'manifest': {'technique': 'property-based testing (rapid): model-based state machine over informer events and scheduling-cycle callbacks '
-                           'with a fake framework handle that owns the waiting-pod map',
+                           'with a fake framework handle that owns the waiting-pod map; plugin-level variant; two-goroutine variant '
+                           'under the race detector',
               'text': 'Generated histories of pod / PodGroup informer events (in order per object, arbitrarily late, with re-lists and '
                       'resyncs), Permit, Unreserve, AfterPostFilter, PostBind, timeouts and bind failures are run against the real gang '
                       'cache. A reference model derives pending / waiting / bound for every pod from the events alone; at the instant '
                       'Permit returns Success every gang of the group must hold its minimum under its match policy in the model, a '
-                      'strict-mode roll-back must reject every still-waiting member of the whole group, and after every step each member '
-                      'must be in exactly one of the three sets and in the set the model says. Exploration, not proof.',
-              'note': 'sampled histories (<= ~40 rules, <= 9 pods); PodGroup events not lagged; concurrency of informer and scheduling '
-                      "goroutines only sampled by the optional -race variant; rapid's PRNG and shrinker"}}
+                      'waiting pod may only be allowed by such a Permit, a strict-mode roll-back must reject every still-waiting member '
+                      'of the whole group, and after every step each member must be in exactly one of the three sets and in the set the '
+                      'model says. Exploration, not proof.',
+              'note': 'sampled histories (~40 / ~120 rules, <= 14 pods); PodGroup events not lagged; interleavings of the informer and '
+                      "scheduling goroutines are sampled by the Go scheduler under -race, not enumerated; rapid's PRNG and shrinker"}}
